@@ -152,7 +152,10 @@ def hstep(draw, nd):
 @st.composite
 def hist_case(draw):
     nd = draw(st.sampled_from([1, 2, 2, 3, 3, 4]))
-    g = draw(gen.geom(ndim=nd, nmin=1, nmax=5, exps=(-9, 0), big_offsets=False, maxcells=300, tol=False))
+    if draw(st.integers(0, 3)) == 0:
+        g = draw(gen.geom_int(ndim=nd))
+    else:
+        g = draw(gen.geom(ndim=nd, nmin=1, nmax=5, exps=(-9, 0), big_offsets=False, maxcells=300, tol=False))
     return {"g": g, "subs": draw(gen.index_boxes(g["n"], 3, min_boxes=1)),
             "steps": draw(st.lists(hstep(nd), min_size=1, max_size=6))}
 
@@ -177,11 +180,26 @@ def check_history(case):
     import discretisedfield as df
 
     g = case["g"]
-    mesh = gen.build_mesh(g, subs=case["subs"])
+    fresh = gen.build_mesh(g, subs=case["subs"])
+    # the caller's Region objects are reused: one of them under two names, and all of them for a second mesh
+    shared = dict(fresh.subregions) if not g.get("dims") else {k: df.Region(p1=v.pmin, p2=v.pmax) for k, v in fresh.subregions.items()}
+    shared = {k: df.Region(p1=v.pmin.copy(), p2=v.pmax.copy()) for k, v in shared.items()}
+    shared["dup"] = shared[case["subs"][0][0]]
+    mesh = df.Mesh(region=gen.build_region(g), n=g["n"], subregions=shared)
+    other = df.Mesh(region=gen.build_region(g), n=g["n"], subregions=shared)
+    other_snap = c13.snap_mesh(other)
+
+    def fresh_twin(m):
+        return df.Mesh(region=df.Region(p1=m.region.pmin.copy(), p2=m.region.pmax.copy(), dims=m.region.dims, units=m.region.units),
+                       n=m.n, bc=m.bc, subregions={k: df.Region(p1=v.pmin.copy(), p2=v.pmax.copy()) for k, v in m.subregions.items()})
+
     cell0 = [float(c) for c in mesh.cell]
     if touching_or_overlapping(case["subs"]):
         tag("touching-or-overlapping")
     for si, step in enumerate(case["steps"]):
+        if c13.snap_mesh(other) != other_snap:
+            raise Violation("other-mesh-modified", f"a mesh sharing the caller's Region objects changed when another mesh "
+                                                   f"was transformed in place (before step {si})")
         kind = step[0]
         nd = mesh.region.ndim
         dims = list(mesh.region.dims)
@@ -208,9 +226,14 @@ def check_history(case):
                 tag("skipped-budget")
                 continue
             names = list(mesh.subregions)
+            twin = c13.call("mesh", fresh_twin(mesh), step, cell0, False)
             r = c13.call("mesh", mesh, step, cell0, step[-1])
             mesh = r
             require(list(mesh.subregions) == names, "transform-lost-subregions", f"{list(mesh.subregions)} vs {names}")
+            if boxes_of(mesh) != boxes_of(twin):
+                raise Violation("transform-subregions-differ-from-fresh-twin",
+                                f"step {step}: subregion index boxes {boxes_of(mesh)} but a mesh built from fresh Region "
+                                f"objects gives {boxes_of(twin)} (aliased Region objects transformed twice?)")
             tag(kind)
         elif kind == "plane":
             if nd < 2:
@@ -291,6 +314,9 @@ def check_history(case):
             mesh = m2
             tag(kind)
         c13.check_mesh_inv(mesh, f"after step {si} {step}")
+    if c13.snap_mesh(other) != other_snap:
+        raise Violation("other-mesh-modified", "a mesh sharing the caller's Region objects changed when another mesh was "
+                                               "transformed in place")
 
 
 def nt_hist(case):
